@@ -387,7 +387,14 @@ def _search_C10(ctx, lits):
     found = 0
     cases = [(f, {}) for f in zoo.FAMILIES] + [("cgmy", zoo.draw_params(__import__("random").Random(7), "cgmy", y)) for y in zoo.CGMY_Y_BRANCHES]
     for fam, prm in cases:
-        for r1, r2, r3 in itertools.product(reps, repeat=3):
+        try:
+            fv = bool(zoo.make_levy(fam, prm).levy_triplet.nu.jump_of_finite_variation())
+        except Exception:
+            fv = True
+        # ZERO (no compensator at all) exists only for jumps of finite variation: for an infinite-variation measure the
+        # library's own conversion through ZERO is not defined (the first moment over (-1, 1) diverges) - not an input of the walk
+        ok_reps = reps if fv else [r for r in reps if r is not LR.ZERO]
+        for r1, r2, r3 in itertools.product(ok_reps, repeat=3):
             try:
                 m = zoo.make_levy(fam, prm)
                 t = m.levy_triplet
